@@ -191,39 +191,3 @@ Proof.
   destruct a; destruct (in_ctx s); cbn; recs; apply HV.
 Qed.
 
-(* ---------- operations a block may contain (this file: the bounds, the knock-out, the objective and its
-   direction; the structural operations follow in RestoreStruct.v) ---------- *)
-Definition ctx_ok (s : st) (o : op) : Prop :=
-  match o with
-  | SetBounds r _ _ | SetLb r _ | SetUb r _ | KnockOut r => rin s r = true
-  | SetDir _ | SetObj _ | SetObjCoef _ _ => True
-  | _ => False
-  end.
-
-Lemma ctx_ok_op_ok s o : ctx_ok s o -> op_ok s o.
-Proof. destruct o; cbn; intros H; try contradiction; split; cbn; auto. Qed.
-
-Lemma step_undone s o : Inv s -> V s -> ctx_ok s o -> undone s (fst (step s o)).
-Proof.
-  intros HI HV Hok. destruct o; cbn [ctx_ok] in Hok; try contradiction; cbn [step].
-  - apply set_bounds_undone; assumption.
-  - apply set_lb_undone; assumption.
-  - apply set_ub_undone; assumption.
-  - apply set_bounds_undone; assumption.
-  - apply set_obj_undone; assumption.
-  - destruct (rin s r); [apply set_obj_undone; assumption|apply undone_refl].
-  - cbn [fst]. apply set_dir_undone.
-Qed.
-
-Lemma step_V s o : V s -> ctx_ok s o -> V (fst (step s o)).
-Proof.
-  intros HV Hok. destruct o; cbn [ctx_ok] in Hok; try contradiction; cbn [step].
-  - apply set_bounds_V; assumption.
-  - apply set_lb_V; assumption.
-  - apply set_ub_V; assumption.
-  - apply set_bounds_V; assumption.
-  - apply set_obj_V; assumption.
-  - destruct (rin s r); [apply set_obj_V; assumption|exact HV].
-  - cbn [fst]. unfold set_dir. destruct (_ && _); [exact HV|]. intros r0. cbn. destruct (in_ctx s); recs; apply HV.
-Qed.
-
